@@ -94,19 +94,24 @@ OpCases == {[kind |-> "op", op |-> o, l |-> l, r |-> r, ctx |-> c] :
 
 (* two modules each declare a class of the same name: a value of one is not a value of the other *)
 XLib == <<"export class Pt {", "	name: str", "	constructor(self, name: str) {", "		self.name = name", "	}", "}",
+          \* a class that is *not* exported, declared after an exported one
+          "class Hidden {", "	z: int", "	constructor(self) {", "		self.z = 1", "	}", "}",
           "export mkpt: fn() -> Pt = fn() -> Pt { return Pt(\"o\") }">>
-XSites == {"arg", "init", "reassign", "ret", "field"}
+XSites == {"arg", "init", "reassign", "ret", "field", "hidden_member", "hidden_import"}
 XLines(site, bad) ==
     LET v == IF bad THEN "lib.mkpt()" ELSE "Pt(2)" IN
     CASE site = "arg" -> <<"taker = fn(p: Pt) -> int { return p.q }", "flt = taker(" \o v \o ")" \o (IF bad THEN M ELSE "")>>
       [] site = "init" -> <<"flt: Pt = " \o v \o (IF bad THEN M ELSE "")>>
       [] site = "reassign" -> <<"re = Pt(1)", "re = " \o v \o (IF bad THEN M ELSE "")>>
       [] site = "ret" -> <<"flt = fn() -> Pt { return " \o v \o " }" \o (IF bad THEN M ELSE "")>>
+      [] site = "hidden_member" -> IF bad THEN <<"flt = lib.Hidden()" \o M>> ELSE <<"flt = lib.Pt(\"n\")">>
+      [] site = "hidden_import" -> IF bad THEN <<"import Hidden from lib" \o M>> ELSE <<"import mkpt from lib">>
       [] site = "field" -> <<"class Holder {", "	p: Pt", "	constructor(self) {", "		self.p = Pt(1)", "	}", "}", "hd = Holder()", "hd.p = " \o v \o (IF bad THEN M ELSE "")>>
 
 VARIABLE x
 Init == x \in {y \in TypedCases : TypedValid(y)}
-           \cup {[kind |-> "xmod", site |-> st, ctx |-> c] : st \in XSites, c \in {"module", "fn"}}
+           \cup ({[kind |-> "xmod", site |-> st, ctx |-> c] : st \in XSites, c \in {"module", "fn"}}
+                 \ {[kind |-> "xmod", site |-> "hidden_import", ctx |-> "fn"]})
            \cup {[kind |-> "fixed", f |-> f, ctx |-> c] : f \in Fixed, c \in Contexts}
            \cup {y \in OpCases : OpUnsupported(y.op, y.l, y.r)}
 Next == UNCHANGED x
